@@ -133,7 +133,12 @@ func c12Run(inI interface{}, env *Env) *Failure {
 							e2 := &c12Err{fmt.Sprintf("e%d-%d-second", ti, oi)}
 							buf := make([]error, 2, 8)
 							buf[0], buf[1] = e, e2
-							target.AppendError(buf...)
+							if oi%4 == 1 {
+								target.AppendError(buf...)
+							} else {
+								// straight into the scope's context object (the layer the scope itself reports to)
+								target.BaseContextScope().AppendError(buf...)
+							}
 							buf[0], buf[1] = &c12Err{"caller-reused-its-buffer"}, nil
 							buf = append(buf, &c12Err{"caller-reused-its-buffer"})
 							appended = append(appended, e, e2)
